@@ -279,3 +279,63 @@ VARIANTS["C14"] = [
     R("forward-k-before-decrement", JFJ, "                if _joint_degree[index] > 0:\n                    _joint_degree[index] -= 1\n                    q[tuple(_joint_degree)] = (\n                        (_joint_degree[index] + 1) * jdd[joint_degree] + 0.0\n                    ) / averages[index]",
       "                if joint_degree[index] > 0:\n                    _joint_degree[index] -= 1\n                    q[tuple(_joint_degree)] = joint_degree[index] * jdd[joint_degree] / averages[index]"),
 ]
+
+# ------------------------------------------------------------------------------------------- C16
+CE = "gcmpy/message_passing/equations/clique_equation.py"
+CC = "gcmpy/message_passing/equations/chordless_cycle_equation.py"
+NC = "gcmpy/message_passing/number_connected_graphs.py"
+VARIANTS["C16"] = [
+    M("symmetric-shortcut", CE, "for comb in itertools.combinations(Hs, kappa):", "for comb in [Hs[:kappa]]:", "C16.1"),
+    M("omega-minus-m", CE, "pow(1 - phi, omega(tau, kappa) + m)", "pow(1 - phi, omega(tau, kappa) - m)", "C16.1"),
+    M("omega-wrong", CE, "return summation - 0.5 * r * (r - 1)", "return summation - 0.5 * r * (r + 1)", "C16.1"),
+    M("kappa-range-short", CE, "for kappa in range(tau):", "for kappa in range(tau - 1):", "C16.1"),
+    M("m-range-short", CE, "range(int(0.5 * kappa * (kappa - 1)) + 1)", "range(int(0.5 * kappa * (kappa - 1)))", "C16.1"),
+    M("Q-args-swapped-offset", CE, "Q(kappa + 1, int(0.5 * kappa * (kappa + 1)) - m)", "Q(kappa + 1, int(0.5 * kappa * (kappa + 1)) - m - 1)", "C16.1"),
+    M("cycle-i-plus-1", CC, "(i + 1) * pow(phi * u, i)", "2 * pow(phi * u, i)", "C16.2"),
+    M("cycle-range", CC, "for i in range(1, n - 1)", "for i in range(1, n - 2)", "C16.2"),
+    M("cycle-last-term", CC, "+ phi * pow(phi * u, n - 1)", "+ phi * pow(phi * u, n)", "C16.2"),
+    M("Q-outer-bound", NC, "for m in range(0, n - 1):", "for m in range(0, n):", "C16.3"),
+    M("Q-np-square", NC, "np = (n - 1 - m) * (n - 2 - m) // 2", "np = (n - 1 - m) * (n - 1 - m) // 2", "C16.3"),
+    M("Q-tree-count", NC, "res = int(pow(n, (n - 2)))", "res = int(pow(n, (n - 1)))", "C16.3"),
+    M("Q-lower-bound", NC, "lb = max(0, k - (m + 1) * m // 2)", "lb = max(1, k - (m + 1) * m // 2)", "C16.3"),
+    M("binomial-guard", NC, "    if d < 0:\n        return 0", "    if d <= 0:\n        return 0", "C16.3"),
+    M("QQ-remove-k", NC, "edges_to_remove = all_edges - k", "edges_to_remove = k", "C16.4"),
+    M("connected-negated", NC, "        if nx.is_connected(J):", "        if not nx.is_connected(J):", "C16.4"),
+    M("keep-set-wrong", NC, "if n == i or n in ak:", "if n in ak:", "C16.4"),
+    M("Q-import-swapped", CE, "from gcmpy.message_passing.number_connected_graphs import Q", "from gcmpy.message_passing.number_connected_graphs import binomial as Q", "C16.1"),
+    R("omega-closed-form", CE, "        r = tau - kappa - 1\n        summation = 0.0\n        for v in range(1, r + 1):\n            summation += tau - v\n        return summation - 0.5 * r * (r - 1)",
+      "        return (kappa + 1) * (tau - kappa - 1)"),
+    R("cycle-sum-as-loop", CC, "    summation = sum(\n        [(i + 1) * pow(phi * u, i) * pow(1 - phi, 2) for i in range(1, n - 1)]\n    )",
+      "    summation = 0.0\n    for j in range(1, n - 1):\n        summation += (j + 1) * (phi * u) ** j * (1 - phi) ** 2"),
+    R("factor-sum-inline", CE, "            summation += prefactor * sum(factor)", "            e_kappa = sum(factor)\n            summation += e_kappa * prefactor"),
+    R("pow-to-starstar", CE, "* pow(phi, int(0.5 * kappa * (kappa + 1)) - m)", "* phi ** (kappa * (kappa + 1) // 2 - m)"),
+]
+
+# ------------------------------------------------------------------------------------------- C19
+DE = "gcmpy/distributions/exponential.py"
+DP = "gcmpy/distributions/poisson.py"
+DL = "gcmpy/distributions/power_law.py"
+DS_ = "gcmpy/distributions/scale_free_cut_off.py"
+VARIANTS["C19"] = [
+    ME("revert-D15", [(DP, "from math import factorial\n", ""), (DP, "/ factorial(k)", "/ np.math.factorial(k)")], "C19.1"),
+    M("exp-one-plus", DE, "(1 - np.exp(-a))", "(1 + np.exp(-a))", "C19.2"),
+    M("exp-sign", DE, "np.exp(-a * k)", "np.exp(a * k)", "C19.2"),
+    M("poisson-k-minus-1", DP, "pow(kmean, k)", "pow(kmean, k - 1)", "C19.2"),
+    M("poisson-no-exp", DP, "np.exp(-kmean) * pow(kmean, k)", "pow(kmean, k)", "C19.2"),
+    M("power-law-no-normaliser", DL, "return pow(k, -alpha) / C", "return pow(k, -alpha)", "C19.2"),
+    M("power-law-positive-exponent", DL, "return pow(k, -alpha) / C", "return pow(k, alpha) / C", "C19.2"),
+    M("zeta-from-zero-step2", DL, "            k += 1\n", "            k += 2\n", "C19.3"),
+    M("zeta-index-from-2", DL, "        k = 1\n", "        k = 2\n", "C19.3"),
+    M("zeta-exit-before-add", DL, "            l += term\n            if abs(term) < tol:\n                break\n", "            if abs(term) < tol:\n                break\n            l += term\n", "C19.3"),
+    M("zeta-tol-loose", DL, "tol = +1e-06", "tol = +1e-02", "C19.3"),
+    M("zeta-term-wrong", DL, "term = 1.0 / k**s", "term = 1.0 / k**(s + 1)", "C19.3"),
+    M("polylog-zk-not-advanced", DS_, "            zk *= z\n", "", "C19.3"),
+    M("polylog-zk-init", DS_, "        zk = z\n", "        zk = 1.0\n", "C19.3"),
+    M("cutoff-sign", DS_, "np.exp(-(k + 0.0) / kappa)", "np.exp((k + 0.0) / kappa)", "C19.2"),
+    M("cutoff-normaliser-arg", DS_, "C = polylog(alpha, np.exp(-1.0 / kappa))", "C = polylog(alpha, np.exp(-kappa))", "C19.2"),
+    M("normaliser-wrong-arg", DL, "C = zeta(alpha)", "C = zeta(alpha + 1)", "C19.2"),
+    R("math-exp", DE, "import numpy as np\n", "import numpy as np\nimport math\n", ),
+    R("exp-power", DE, "return (1 - np.exp(-a)) * np.exp(-a * k)", "return (1 - np.exp(-a)) * np.exp(-a) ** k"),
+    R("poisson-starstar", DP, "np.exp(-kmean) * pow(kmean, k) / factorial(k)", "kmean**k * np.exp(-kmean) / factorial(k)"),
+    R("zeta-term-pow", DL, "term = 1.0 / k**s", "term = pow(k, -s)"),
+]
